@@ -817,6 +817,14 @@ class Executor:
             return IntV(self.norm(st, ex, ty), ty, a.lowzero + k)
         if name in ("Shr", "ShrUnchecked"):
             if not z3.is_int_value(b.e):
+                # right shift by a symbolic amount that is provably small (< 32): case split on the amount
+                bits = INT_TYPES[ty][0]
+                lim = min(32, bits)
+                if self.prove(st.pc, z3.And(b.e >= 0, b.e < lim), quick=True):
+                    e = a.e / (1 << (lim - 1))
+                    for k in range(lim - 2, -1, -1):
+                        e = z3.If(b.e == k, a.e / (1 << k), e)
+                    return IntV(e, ty)
                 raise Unsupported("shift by symbolic amount")
             k = b.e.as_long() % INT_TYPES[ty][0]
             return IntV(a.e / (1 << k), ty)  # floor division = arithmetic shift (signed) / logical (unsigned, value >= 0)
@@ -1206,6 +1214,13 @@ class Executor:
                 return st, self.cmp_method(meth, a.e, b.e)
             if tb in ("PartialEq",) and sb == "()":
                 return st, BoolV(True)
+            if tb == "PartialEq" and meth in ("eq", "ne") and re.fullmatch(r"Option<(\w+)>", sb) and re.fullmatch(r"Option<(\w+)>", sb).group(1) in INT_TYPES:
+                a, b = self.load(st, args[0]), self.load(st, args[1])
+                if isinstance(a, EnumV) and isinstance(b, EnumV):
+                    pa, pb = a.payload.get(1), b.payload.get(1)
+                    same_payload = (pa[0].e == pb[0].e) if (pa and pb) else z3.BoolVal(True)
+                    eq = z3.And(a.disc == b.disc, z3.Or(a.disc == 0, same_payload))
+                    return st, BoolV(eq if meth == "eq" else z3.Not(eq))
             if tb == "Try" and meth == "branch":
                 v = args[0]
                 if isinstance(v, EnumV) and v.name == "Option":
@@ -1381,6 +1396,13 @@ class Executor:
             return st, ite_val(v.disc == 1, pl[0], args[1])
         if meth == "unwrap_or_default":
             raise Unsupported(c)
+        if meth in ("or", "xor", "and") and len(args) == 2:
+            w = self.load(st, args[1]) if isinstance(args[1], (RefV, ConstRef)) else args[1]
+            if isinstance(w, EnumV) and meth == "or":
+                return st, ite_val(v.disc == 1, v, w)
+            if isinstance(w, EnumV) and meth == "and":
+                return st, ite_val(v.disc == 1, w, EnumV("Option", 0))
+            raise Unsupported(c)
         if meth == "ok_or":
             pl = v.payload.get(1, [None])
             return st, EnumV("Result", z3.If(v.disc == 1, 0, 1), {0: pl, 1: [args[1]]})
@@ -1388,6 +1410,19 @@ class Executor:
             # the closure only builds the error value (message); it is not executed: the error is opaque
             pl = v.payload.get(1, [None])
             return st, EnumV("Result", z3.If(v.disc == 1, 0, 1), {0: pl, 1: [OpaqueV("error built by " + c[-60:])]})
+        if meth == "map_or":
+            default, clo = args[1], args[2]
+            f = self.closure_body(c, clo)
+            if f is None:
+                raise Unsupported(f"closure body for {c}")
+            pl = v.payload.get(1)
+            if pl is None:
+                return st, default
+            sub = State(z3.And(st.pc, v.disc == 1), dict(st.mem))
+            sub2, r = self.exec_fn(f, [clo, pl[0]], sub)
+            if sub2 is None:
+                return State(z3.And(st.pc, v.disc == 0), st.mem), default
+            return State(z3.Or(z3.And(st.pc, v.disc == 0), sub2.pc), sub2.mem), ite_val(v.disc == 1, r, default)
         if meth in ("map", "and_then", "filter"):
             clo = args[1]
             f = self.closure_body(c, clo)
@@ -1447,6 +1482,19 @@ class Executor:
             if pl is None:
                 return st, args[1]
             return st, ite_val(v.disc == 0, pl[0], args[1])
+        if meth == "map_err":
+            # the closure only builds the error value: executed when it is a known closure (so that the error kind is
+            # exact), opaque otherwise
+            clo = args[1]
+            f = self.closure_body(c, clo)
+            okp = v.payload.get(0, [None])
+            if f is None or v.payload.get(1) is None:
+                return st, EnumV("Result", v.disc, {0: okp, 1: [OpaqueV("error built by " + c[-60:])]})
+            sub = State(z3.And(st.pc, v.disc == 1), dict(st.mem))
+            sub2, r = self.exec_fn(f, [clo, v.payload[1][0]], sub)
+            if sub2 is None:
+                return State(z3.And(st.pc, v.disc == 0), st.mem), EnumV("Result", 0, {0: okp})
+            return State(z3.Or(z3.And(st.pc, v.disc == 0), sub2.pc), sub2.mem), EnumV("Result", v.disc, {0: okp, 1: [r]})
         return NotImplemented
 
     def std_duration(self, st, meth, args):
